@@ -135,11 +135,31 @@ def extract():
     for member in ("CONNECT", "DISCONNECT", "PAIR", "UNPAIR", "CONNECT_V3_WITH_CACHE", "CONNECT_V3_WITHOUT_CACHE", "CLEAR_CACHE"):
         out["BLE_REQ_" + member] = Fraction(int(getattr(_model.BluetoothDeviceRequestType, member)))
     out["BLE_FEATURE_REMOTE_CACHING"] = Fraction(int(_model.BluetoothProxyFeature.REMOTE_CACHING))
-    csrc = (PKG / "client.py").read_text()
-    m = re.search(r"async def bluetooth_gatt_start_notify\(.*?timeout: float = ([0-9.]+),", csrc, re.S)
-    m2 = re.search(r"async def _send_bluetooth_message_await_response\(.*?timeout: float = ([0-9.]+),", csrc, re.S)
-    if not m or not m2:
+    # default time-outs of the BLE handle operations: the public start-notify method, and the private helper every handle
+    # operation goes through (recognised by its parameters: address, handle, a request, a response type and a timeout)
+    ctree2 = ast.parse((PKG / "client.py").read_text())
+    ccls = next(n for n in ctree2.body if isinstance(n, ast.ClassDef) and n.name == "APIClient")
+
+    def timeout_default(fn):
+        names = [a.arg for a in fn.args.args]
+        if "timeout" not in names:
+            return None
+        d = fn.args.defaults[names.index("timeout") - (len(names) - len(fn.args.defaults))] if names.index("timeout") >= len(names) - len(fn.args.defaults) else None
+        return d
+    notify = [n for n in ccls.body if isinstance(n, ast.AsyncFunctionDef) and n.name == "bluetooth_gatt_start_notify"]
+    helpers = [n for n in ccls.body if isinstance(n, ast.AsyncFunctionDef) and n.name.startswith("_")
+               and [a.arg for a in n.args.args][:3] == ["self", "address", "handle"] and "response_type" in [a.arg for a in n.args.args]
+               and "timeout" in [a.arg for a in n.args.args]]
+    if len(notify) != 1 or len(helpers) != 1 or timeout_default(notify[0]) is None or timeout_default(helpers[0]) is None:
         raise TranslationError("client.py: default timeouts of the BLE handle operations not found")
+
+    class _M:     # keeps the shape the code below expects
+        def __init__(self, node):
+            self.v = literal(node, "BLE default timeout")
+
+        def group(self, _):
+            return str(self.v)
+    m, m2 = _M(timeout_default(notify[0])), _M(timeout_default(helpers[0]))
     out["BLE_NOTIFY_TIMEOUT"] = Fraction(m.group(1))
     out["BLE_HANDLE_TIMEOUT"] = Fraction(m2.group(1))
     for k in ("BACKOFF_TRIES_CAP", "BACKOFF_BASE", "BACKOFF_MAX"):
